@@ -173,6 +173,9 @@ QUIRKS = {
     "width1-no-wrap": "on a 1-column terminal printing overwrites column 0 and never wraps",
     "width1-wrap-loses-pending": "on a 1-column terminal a glyph printed right after an autowrap does not set the "
     "last-column flag again, so the following glyph overwrites it (every second glyph is lost)",
+    "ed-confined-to-region-in-origin-mode": "with DECOM set, ED 0 stops at the end of the bottom-margin row and ED 1 starts at "
+    "the top-margin row (rows outside the scrolling region are not erased); ED 2 is unaffected",
+    "cpr-absolute-in-origin-mode": "the cursor position report gives the absolute row even when DECOM is set",
     "il-dl-keep-column": "IL / DL leave the cursor column unchanged (xterm behaviour)",
     "decstbm-no-home": "a valid DECSTBM does not move the cursor",
     "bs-at-pending-wrap-stays": "BS in the pending-wrap state only clears the flag, cursor stays on the last column",
@@ -827,12 +830,13 @@ class VT:
 
     def _ed(self, mode):
         g = self.cells
+        confined = 6 in self.modes and "ed-confined-to-region-in-origin-mode" in self.quirks
         if mode == 0:
             self._erase_span(g[self.y], self.x, self.cols)
-            for y in range(self.y + 1, self.rows):
+            for y in range(self.y + 1, (self.bottom + 1) if confined else self.rows):
                 g[y] = [self._erase_cell()] * self.cols
         elif mode == 1:
-            for y in range(self.y):
+            for y in range(self.top if confined else 0, self.y):
                 g[y] = [self._erase_cell()] * self.cols
             end = self.x + 1
             if self.quirks and "ed1-el1-exclude-cursor-cell" in self.quirks:
@@ -1137,7 +1141,7 @@ class VT:
             self._unk(("CSI", prefix, params, inter, final))
 
     def _report_cursor(self, prefix):
-        y = self.y - self.top if 6 in self.modes else self.y
+        y = self.y - self.top if (6 in self.modes and "cpr-absolute-in-origin-mode" not in self.quirks) else self.y
         self.responses.append(b"\x1b[" + prefix + f"{y + 1};{self.x + 1}R".encode())
 
     def _decstbm(self, flat):
@@ -1418,6 +1422,10 @@ def _selftest():
     ok(v.take_responses() and v.responses == [], "take_responses")
     v = mk(b"\x1b[2;3r\x1b[?6h\x1b[1;1Hx\x1b[6n")
     ok(v.row_text(1)[0] == "x" and v.responses == [b"\x1b[1;2R"] and v.origin_mode, "DECOM")
+    v = mk(b"a\r\nb\r\nc\r\nd\x1b[2;3r\x1b[?6h\x1b[J\x1b[6n", quirks={"ed-confined-to-region-in-origin-mode", "cpr-absolute-in-origin-mode"})
+    ok([r[0] for r in v.text_rows()] == ["a", " ", " ", "d"] and v.responses == [b"\x1b[2;1R"], "quirks ED confined / CPR absolute in origin mode")
+    v = mk(b"a\r\nb\r\nc\r\nd\x1b[2;3r\x1b[?6h\x1b[J\x1b[6n")
+    ok([r[0] for r in v.text_rows()] == ["a", " ", " ", " "] and v.responses == [b"\x1b[1;1R"], "ED 0 ignores margins, CPR relative in origin mode")
     v = mk(b"\x1b]0;hi there\x07A\x1b]2;t2\x1b\\B\x1b]1;icon\x07")
     ok(v.title == "t2" and v.icon_title == "icon" and v.row_text(0)[:2] == "AB", "OSC BEL / ST")
     v = mk(b"\x1bPabc\x1b\\X\x1b_zz\x1b\\Y\x1b^q\x1b\\Z\x1bXs\x1b\\W")
